@@ -19,7 +19,7 @@ type StrV struct {
 	Arr, Off, Len *Term
 	Lit   *string // literal content, when the string is a compile-time constant
 	Cat   []StrV  // operands, when the string was built by concatenation
-	Taint bool    // carries secret material (C18)
+	Taint uint8   // taint label bits: the value carries secret material (C18)
 }
 
 // SliceV is a slice header over a backing object.
@@ -69,7 +69,7 @@ type SymIface struct {
 	Cases map[string]Value
 	CaseT map[string]types.Type
 	Closed bool // the dynamic type is nil or one of CaseT (merge of concrete alternatives)
-	Taint *Term
+	Taint uint8
 }
 
 // FuncV: Fn != nil → known function with bound free variables. Otherwise symbolic.
@@ -152,6 +152,11 @@ type State struct {
 	// debug variable bindings (source name -> value or pointer to its alloc)
 	vars map[string]Value
 	dead bool
+	// taint labels of objects (byte arrays, maps) and taint keys of maps (C18)
+	taint    map[*Obj]uint8
+	taintKey map[*Obj]map[string]bool
+	// strings known not to occur in a slice of strings (assumed nolit(...) facts)
+	sliceExcl map[*Obj]map[string]bool
 }
 
 func (s *State) clone() *State {
@@ -161,6 +166,20 @@ func (s *State) clone() *State {
 		ghost:  make(map[string]Value, len(s.ghost)),
 		inLoop: make(map[int]bool, len(s.inLoop)),
 		vars:   make(map[string]Value, len(s.vars)),
+		taint:    make(map[*Obj]uint8, len(s.taint)),
+		taintKey: make(map[*Obj]map[string]bool, len(s.taintKey)),
+	}
+	for k, v := range s.taint {
+		n.taint[k] = v
+	}
+	for k, v := range s.taintKey {
+		n.taintKey[k] = v
+	}
+	if len(s.sliceExcl) > 0 {
+		n.sliceExcl = make(map[*Obj]map[string]bool, len(s.sliceExcl))
+		for k, v := range s.sliceExcl {
+			n.sliceExcl[k] = v
+		}
 	}
 	for k, v := range s.heap {
 		n.heap[k] = v
